@@ -5,6 +5,8 @@ import (
 	"strings"
 	"time"
 
+	"github.com/redis/go-redis/v9"
+
 	"github.com/sergeii/swat4master/verifharness/internal/sched"
 	"github.com/sergeii/swat4master/verifharness/internal/world"
 )
@@ -27,12 +29,27 @@ type SchedResult struct {
 // Events naming a finished or crashed client are skipped.  When the list is exhausted the live clients
 // are completed round-robin (one command each in turn).
 func RunScheduled(w *world.World, clients []func(p *world.Proc) string, events []string) SchedResult {
+	return RunScheduledWrap(w, clients, events, nil)
+}
+
+// RunScheduledWrap: like RunScheduled; wrap (optional) decorates the repositories of client i's process
+// (used to mark repository-call boundaries: entries "<i>:call:<name>" / "<i>:ret:<name>" in the trace).
+// Additional event:
+//
+//	c<i>   client i runs until its current/next repository call has returned (all its storage commands
+//	       are granted back to back) — a call-granularity step
+func RunScheduledWrap(w *world.World, clients []func(p *world.Proc) string, events []string,
+	wrap func(sc *sched.Sched, id int, r world.Repos) world.Repos) SchedResult {
 	sc := sched.New()
 	procs := make([]*world.Proc, len(clients))
 	results := make([]string, len(clients))
 	for i := range clients {
-		_, hook := sc.AddProc()
-		procs[i] = w.NewProc(hook)
+		id, hook := sc.AddProc()
+		po := world.ProcOpts{Hooks: []redis.Hook{hook}}
+		if wrap != nil {
+			po.Wrap = func(r world.Repos) world.Repos { return wrap(sc, id, r) }
+		}
+		procs[i] = w.NewProcOpts(po)
 	}
 	for i := range clients {
 		i := i
@@ -63,6 +80,18 @@ func RunScheduled(w *world.World, clients []func(p *world.Proc) string, events [
 				act, num = sched.FaultAfter, ev[2:]
 			case ev[0] == 's':
 				act, num = sched.Run, ev[1:]
+			case ev[0] == 'c':
+				i, err := strconv.Atoi(ev[1:])
+				if err != nil {
+					continue
+				}
+				before := sc.CountMarks(i, "ret:")
+				for sc.Step(i, sched.Run) {
+					if sc.CountMarks(i, "ret:") > before || sc.Hung {
+						break
+					}
+				}
+				continue
 			default:
 				continue
 			}
